@@ -653,6 +653,75 @@ def run(ctx):
     # nothing is computed from the file before the type test except the name
     # precheck only warns
     pp = prog.mod('lib').func('protein_precheck')
+    # the entry points hand their arguments on intact: a call that unpacks a
+    # sequence of unknown length into a callee of fixed arity fails with
+    # TypeError (or, for one element, passes a string where a list is meant)
+    # before any structure is looked at - main(['x.xyz']) then ends in
+    # SystemExit/TypeError instead of the ValueError of read_molecule_file
+    n_star = 0
+    for m2, q2, f2 in prog.all_funcs():
+        for c in calls_in(f2):
+            stars = [a for a in c.args if isinstance(a, ast.Starred)]
+            if not stars:
+                continue
+            targets = cg.resolve_call(m2, q2, c) if hasattr(cg, 'resolve_call') else []
+            cname = (call_name(c) or '').split('.')[-1]
+            cands = [fn_ for (mm, qq), fn_ in cg.funcs.items() if qq.split('.')[-1] == cname] \
+                if not targets else [cg.funcs[t] for t in targets]
+            if len(cands) != 1 or cands[0].args.vararg is not None:
+                continue
+            callee = cands[0]
+            pos = [a.arg for a in callee.args.args if a.arg != 'self']
+            n_def = len(callee.args.defaults)
+            lo, hi = len(pos) - n_def, len(pos)
+            n_star += 1
+            known = 0
+            unknown = []
+            for a in c.args:
+                if not isinstance(a, ast.Starred):
+                    known += 1
+                    continue
+                v = a.value
+                n = None
+                if isinstance(v, (ast.Tuple, ast.List)):
+                    n = len(v.elts)
+                elif isinstance(v, ast.Name):
+                    defs = [st for st in walk_no_nested(f2) if isinstance(st, ast.Assign)
+                            and norm(st.targets[0]) == v.id]
+                    # also look in the enclosing function (closures)
+                    outer = getattr(f2, '_parent', None)
+                    while outer is not None and not isinstance(outer, ast.FunctionDef):
+                        outer = getattr(outer, '_parent', None)
+                    if not defs and outer is not None:
+                        defs = [st for st in walk_no_nested(outer) if isinstance(st, ast.Assign)
+                                and norm(st.targets[0]) == v.id]
+                    if len(defs) == 1 and isinstance(defs[0].value, (ast.Tuple, ast.List)):
+                        n = len(defs[0].value.elts)
+                    else:
+                        for fdef in (f2, outer):
+                            if fdef is None or defs:
+                                continue
+                            ps = fdef.args.args + fdef.args.kwonlyargs
+                            ds = [None] * (len(fdef.args.args) - len(fdef.args.defaults)) + \
+                                list(fdef.args.defaults) + list(fdef.args.kw_defaults)
+                            for p_, d_ in zip(ps, ds):
+                                if p_.arg == v.id and isinstance(d_, (ast.Tuple, ast.List)):
+                                    n = len(d_.elts)
+                if n is None:
+                    unknown.append(norm(v))
+                else:
+                    known += n
+            ok_star = not unknown and lo <= known <= hi
+            skey = 'star-call:%s.%s:%s' % (m2.name, q2, anorm(c, f2)[:50])
+            dup = sum(1 for o in ctx.obligations if o['key'].split('#')[0] == skey)
+            if dup:
+                skey += '#%d' % (dup + 1)
+            ctx.ob('C12.R4', skey, ok_star,
+                   '%s unpacks %s into %s, which takes %d to %d positional arguments (%s)'
+                   % (norm(c)[:60], [norm(a.value) for a in stars], cname, lo, hi,
+                      'length unknown: ' + ', '.join(unknown) if unknown else '%d passed' % known),
+                   m2, c)
+    ctx.note('star_calls', n_star)
     ctx.ob('C12.R4', 'precheck:only-warns',
            not any(isinstance(n, (ast.Raise, ast.Assert)) for n in walk_no_nested(pp)) and
            all(last_attr(c) != 'error' for c in calls_in(pp)),
